@@ -27,7 +27,7 @@ CFG = {
     "quick": dict(Temps={0, 100, 200}, CPs={1, 2}, DTCs={0, 50}, MaxStreams=3, HotOpts={0, 1, 2, 4, 5}, ColdOpts={0, 2, 3, 5}),
     "deepA": dict(Temps={0, 100, 200, 300}, CPs={1, 2}, DTCs={0, 50}, MaxStreams=3, HotOpts={0, 1, 2, 3, 4, 5}, ColdOpts={0, 1, 2, 3, 4, 5}),
     "deepB": dict(Temps={0, 100, 200}, CPs={1, 2}, DTCs={0, 50}, MaxStreams=4, HotOpts={2, 4}, ColdOpts={2, 4}),
-    "tiny": dict(Temps={0, 100, 200}, CPs={1, 2}, DTCs={0, 50}, MaxStreams=2, HotOpts={0, 1, 2, 3}, ColdOpts={0, 1, 2, 3}),
+    "tiny": dict(Temps={0, 100, 200}, CPs={1, 2}, DTCs={0, 50}, MaxStreams=2, HotOpts={0, 1, 2, 3, 5}, ColdOpts={0, 1, 2, 3}),
 }
 INVS = ["C03_Sums", "C04_Feasible", "C04_Optimal", "C04_BruteForce", "EmitCase"]
 
